@@ -1093,12 +1093,14 @@ PROPS["C07"]["level_text"] += (
     ' BRIDGE TO THE DP MASTER (phase 3, proofs in coq/Proofs/C07Bridge.v): master_visit = one token visit of the fault-free bus with the DpMaster '
     'model and n >= 1 reference slaves (dp_transmit; a Global_Control broadcast is seen by every device; a request by the device with the '
     'destination address, its answer - if it decodes completely and passes the FDL admission rule - goes to dp_receive_reply, otherwise '
-    'dp_handle_timeout), master_run = any schedule of visits, counting the visits that report cycle_completed. C07_master_runs_joint_system: from '
-    'a cycle boundary, after every run with K completed master cycles the peripheral of every slot and its device are exactly where n >= K cycles '
-    'of the single-peripheral joint system take the pair (device up to the recorded Global_Control command): the transmit_telegram / '
+    'dp_handle_timeout), master_run = any schedule of visits, counting the visits that report cycle_completed. C07_master_runs_joint_system: '
+    'after every run with K completed master cycles the peripheral of every slot and its device are exactly where n cycles of the '
+    'single-peripheral joint system take the pair (device up to the recorded Global_Control command), n >= K from a cycle boundary and '
+    'n + 1 >= K from inside a cycle: the transmit_telegram / '
     'receive_reply calls DpMaster makes for one peripheral ARE a run of the joint system, at least one joint cycle per master cycle (each occupied '
     'slot gets its turn in every cycle; a retransmission after a time-out happens at the next visit inside the same cycle). C07_recovery_master '
-    '(and _explicit): no pair in the F15 class => in every run with at least max_retry + 11 completed MASTER cycles every peripheral is in '
+    '(and _explicit): no pair in the F15 class => in every run with at least max_retry + 11 (+ 1 when started inside a cycle) completed MASTER '
+    'cycles every peripheral is in '
     'DataExchange with its device in Data_Exch, and stays there (the statement holds for every longer run). Any number of slots / storage '
     'layout / visit times, distinct addresses. C07_bridge_step: the invariant step for every token visit. Non-vacuity: '
     'C07_recovery_master_witness (two peripherals, 40 visits, 13 cycles, global control interleaved).')
@@ -1108,9 +1110,9 @@ PROPS["C07"]["partial_gap"] = PROPS["C07"]["partial_gap"].replace(
     'telegrams for several peripherals is not part of C07_recovery (C14 covers the cycle structure; the monitor checks the multi-peripheral case '
     'on implementation transcripts).',
     '(a) C07_recovery itself is about ONE peripheral at the Peripheral level; the composition with the DpMaster slot iteration and global '
-    'control for any number of peripherals is now proved (C07_master_runs_joint_system, C07_recovery_master), for runs that start at a cycle '
-    'boundary of the master with no request outstanding (a start inside a cycle costs at most one more master cycle, not stated), with one device '
-    'per peripheral address and distinct addresses.')
+    'control for any number of peripherals is now proved (C07_master_runs_joint_system, C07_recovery_master), from any cycle position of the '
+    'master with no request outstanding (max_retry + 11 master cycles from a cycle boundary, one more from inside a cycle), with one device per '
+    'peripheral address and distinct addresses; the run is assumed not to reach a panic site (Ok): panic freedom is C05.')
 assert "composition with DpMaster slot iteration" not in PROPS["C07"]["partial_gap"]
 assert "is not covered (fixed peripheral set)" not in PROPS["C04"]["partial_gap"]
 assert "does not judge them either" not in PROPS["C14"]["partial_gap"]
